@@ -239,7 +239,7 @@ def main():
         try:
             lz = L.build_lazy(st)
             ref = L.build_lazy(st)
-            with L.time_limit(5.0):
+            with L.time_limit(30.0):
                 with L.apply_spelled(lz, op1[0], *sp1) as y:
                     for j, e in enumerate(edits):
                         L.do_edit(y, e, j)
@@ -285,7 +285,7 @@ def main():
             ref = L.build((st[0], st[1], st[2], False))
             if st[3]:
                 tc.lock_(); ref.lock_()
-            with L.time_limit(5.0):
+            with L.time_limit(30.0):
                 with L.apply_spelled(tc, op1[0], *sp1) as y:
                     for j, e in enumerate(edits):
                         L.do_edit(y, e, j)
